@@ -222,6 +222,13 @@ def release_rules(ctx: Ctx, rid: str):
                    key=key_of(rid, prec, None, f"release {field} direction"))
     if n < 2:
         raise AnchorMissing(f"_calculatePreciseEndTimeAndRelease: {n} release writes found")
+    # the trim reaches every member of a team, not only the resource that was booked last
+    team = [1 for atoms, node, tgt in heap_writes(ctx, prec, "slotSecondsUsed") if {"field:_selectedResources", "str:_selectedResources"} & full(atoms)]
+    ctx.ob(rid, f"{prec.qual}: release covers the whole team ({len(team)} write(s) reached from the selected resources)", prec, bool(team),
+           "each selected resource hands back the tail of the final slot" if team else
+           "only the resource booked last is trimmed in the final slot: the other team members keep the whole slot, so the members of a "
+           "team are not booked for the same instants",
+           key=key_of(rid, prec, None, "release whole team"))
 
 
 
@@ -379,6 +386,23 @@ def run(ctx: Ctx):
                    "duration task ends at time(slot + 1) forward / time(slot) backward" if ok else
                    "duration task end offset is not +1 forward / +0 backward", key=key_of("R06.4", slot, None, "duration end"))
 
+    # the slot of the first booking is known also when the task completes in that very slot: the walk loop is left (scheduleSlot()
+    # returns False) before its body can record it, so a recording after the loop is needed
+    walk = [w for w in own_nodes(ts_sched) if isinstance(w, ast.While) and "scheduleSlot" in norm(w.test)]
+    if len(walk) != 1:
+        raise AnchorMissing("TaskScenario.schedule: slot walk not found")
+    in_loop = [n for n in ast.walk(walk[0]) if isinstance(n, ast.Assign) and norm(n.targets[0]) == "first_booked_slot"]
+    after = [n for n in own_nodes(ts_sched) if isinstance(n, ast.Assign) and norm(n.targets[0]) == "first_booked_slot"
+             and n.lineno > walk[0].end_lineno and norm(n.value) == "self.currentSlotIdx"]
+    from .common import enclosing_ifs as _ei
+    guarded = [n for n in after if any("first_booked_slot is None" in norm(i.test) and "doneEffort" in norm(i.test) and b == "T"
+                                       for (i, b) in _ei(n, ts_sched.node))]
+    ok = bool(in_loop) and bool(guarded)
+    ctx.ob("R06.4", f"{ts_sched.qual}: first booked slot recorded in the loop ({len(in_loop)}) and after it ({len(guarded)})", (ts_sched, walk[0]), ok,
+           "a task that completes in the slot of its first booking still ends in that slot" if ok else
+           "the slot of the first booking is recorded only inside the walk loop: a backward task that completes in that very slot gets its "
+           "end from the slot of the deadline, so its reported end lies beyond the last slot it worked in",
+           key="R06.4|TaskScenario.schedule|first booking recorded")
     # ---------------------------------------------------------------- R06.5 completion test
     completion_test_rule(ctx, "R06.5")
     # ---------------------------------------------------------------- R06.6 start-offset reservation (shared with C01 R01.4)
@@ -390,4 +414,4 @@ def run(ctx: Ctx):
     ctx.floor("R06.1", 6)
     ctx.floor("R06.2", 3)
     ctx.floor("R06.3", 6)
-    ctx.floor("R06.4", 2)
+    ctx.floor("R06.4", 3)
